@@ -1453,20 +1453,37 @@ func (e *Env) restoreFileStores(field string) bool {
 	if assigns(rf.Body) {
 		return true
 	}
-	found := false
-	ast.Inspect(rf.Body, func(n ast.Node) bool {
-		if call, ok := n.(*ast.CallExpr); ok {
-			if fn := calleeFunc(info, call); fn != nil && fn.Pkg() == pkg.Types {
-				for _, d := range load.AllFuncDecls(pkg) {
-					if info.Defs[d.Name] == types.Object(fn) && d.Body != nil && d != rf && assigns(d.Body) {
-						found = true
+	// … or a function it calls does, up to three calls deep
+	var reaches func(body ast.Node, depth int) bool
+	reaches = func(body ast.Node, depth int) bool {
+		if assigns(body) {
+			return true
+		}
+		if depth >= 3 {
+			return false
+		}
+		found := false
+		ast.Inspect(body, func(n ast.Node) bool {
+			if call, ok := n.(*ast.CallExpr); ok && !found {
+				if fn := calleeFunc(info, call); fn != nil && fn.Pkg() == pkg.Types {
+					for _, d := range load.AllFuncDecls(pkg) {
+						if info.Defs[d.Name] == types.Object(fn) && d.Body != nil && d != rf && !isGeneratedConverter(d) && reaches(d.Body, depth+1) {
+							found = true
+						}
 					}
 				}
 			}
-		}
-		return true
-	})
-	return found
+			return !found
+		})
+		return found
+	}
+	return reaches(rf.Body, 0)
+}
+
+// isGeneratedConverter: restoreNode and the other big converters are not followed when looking
+// for a helper of RestoreFile.
+func isGeneratedConverter(d *ast.FuncDecl) bool {
+	return d.Body != nil && len(d.Body.List) > 0 && d.End()-d.Pos() > 20000
 }
 
 // posAlways: position fields that go/parser sets even when their token is not written.
